@@ -15,7 +15,8 @@
 From Coq Require Import List NArith.
 From stdpp Require Import gmap.
 From RaftModel Require Import Base Config Node NodeCodec Cluster ClusterLog ClusterCommit.
-From RaftProofs Require Import RecoverProofs ClusterCommitSpec ClusterCommitMain ClusterCommitInit ClusterCommitCex.
+From RaftProofs Require Import RecoverProofs ClusterCommitSpec ClusterCommitMain ClusterCommitInit ClusterCommitCex
+  ClusterCommitSnapSpec ClusterCommitSnapMain ClusterCommitSnapCex.
 Open Scope N_scope.
 
 Theorem C02_fsm_stream_in_order : forall s idx s' tr,
@@ -96,3 +97,20 @@ Example C02_F11_runs_now_safe :
   (exists g, crun false [mk_cfg 3] cexC_g0 cexC_labels = Some g /\
      (no_violation g [1; 2; 3] [1; 2; 3; 4; 5; 6] && (commit_of g 1 =? 6) && (commit_of g 3 =? 5)) = true).
 Proof. split; [exact old_rule_cexB_now_safe | exact old_rule_cexC_now_safe]. Qed.
+
+
+(* THE SAME WITH takeSnapshot + log compaction at any server at any time (crun true; any TrailingLogs,
+   failing stores and crash cuts inside takeSnapshot), from a freshly booted cluster whose FSM
+   goroutines have handled nothing yet (cinit_snap_ok): committed_agree as before; lastApplied is
+   bounded by max(commitIndex, own snapshot index) (a restart restores the snapshot and resets the
+   volatile commit index: C02_restart_refutes_applied_le_commit shows the plain bound is false then). *)
+Theorem C02_state_machine_safety_all_runs_with_snapshots : forall cfg g0 ls g,
+  cinit_snap_ok cfg g0 -> Forall label_ok ls -> crun true [cfg] g0 ls = Some g ->
+  committed_agree g /\ applied_within_snap g.
+Proof. intros cfg g0 ls g H0 Hl Hr. destruct (state_machine_safety_snapshots cfg g0 ls g H0 Hl Hr) as (A & _ & B & _). split; assumption. Qed.
+Print Assumptions C02_state_machine_safety_all_runs_with_snapshots.
+
+Theorem C02_restart_refutes_applied_le_commit : exists cfg g0 ls g,
+  cinit_snap_ok cfg g0 /\ Forall label_ok ls /\ crun true [cfg] g0 ls = Some g /\
+  ~ applied_within_commit g /\ applied_within_snap g.
+Proof. exact restart_from_snapshot_refutes_applied_within_commit. Qed.
